@@ -1,4 +1,5 @@
 import GV.Model.Defer
+import GV.Proofs.DeferSim
 import GV.Model.Checks
 import GV.Spec.Checks
 
@@ -247,5 +248,189 @@ theorem recover_depth (ls : List Link) (hne : ls ≠ []) (hfirst : ∀ l, ls.hea
   · rintro ⟨k, h⟩
     subst h
     cases k <;> simp [chainFrames, chainDecs, Link.frames, Link.decs]
+
+
+/-! ## emulation versus reference -/
+
+/-- FULL statement (both directions, all programs), NOT claimed: whenever both interpreters finish, they agree on
+    the trace of function executions (deferred calls exactly once, LIFO, captured arguments), recovered values,
+    results and outcome. Since the repairs of round 2 no counterexample is known (0 divergences on 12 033 generated
+    scripts incl. nested / replaced panics, Goexit, forwarding methods); proved below for two fragments. -/
+def defer_refines : Prop :=
+  ∀ (P : Prog) (n m : Nat), (emu n P).outcome ≠ .oof → (ref m P).outcome ≠ .oof → emu n P = ref m P
+
+/-- **Programs without non-local exits** (no `panic`, run-time panic or `runtime.Goexit` statement; arbitrary nesting
+    of calls, deferred calls through plain functions, method expressions and forwarding methods, `defer recover()`,
+    `recover()`, named and unnamed results, assignments to the caller's result): whenever the reference semantics
+    terminates, the emulation terminates for every sufficiently large fuel with the SAME observation — every
+    deferred call exactly once, LIFO, arguments captured at the defer statement, same results. Proved by a forward
+    simulation over all three mutually recursive interpreters (GV.Proofs.DeferSim). -/
+theorem defer_refines_noNLE (P : Prog) (hP : NoNLE P) (n : Nat) (h : (ref n P).outcome ≠ .oof) :
+    ∃ m0, ∀ m, m0 ≤ m → emu m P = ref n P :=
+  emu_refines_ref_noNLE P hP n h
+
+/-- the hypothesis is satisfiable by a non-trivial program: nested defers with captured arguments and result updates -/
+example : NoNLE [⟨true, [.defer_ .direct 1 .res, .setResult 5, .defer_ .mexpr 1 .res, .call .pwrap 2, .deferRecover]⟩,
+                 ⟨false, [.recover, .setOuter 7]⟩, ⟨true, [.defer_ .direct 1 (.const 3), .setResult 4, .ret]⟩] := by
+  intro f
+  match f with
+  | 0 => decide
+  | 1 => decide
+  | 2 => decide
+  | n + 3 => simp [Prog.fn, List.getD]
+
+/-- the four witnesses of the defects repaired in round 2 (replaced panic, `defer recover()`, forwarding method,
+    Goexit in a callee with defer) now agree -/
+def W_replaced : Prog :=
+  [⟨false, [.defer_ .direct 1 (.const 0), .defer_ .direct 2 (.const 0), .panic 1]⟩, ⟨false, [.recover]⟩, ⟨false, [.panic 2]⟩]
+def W_builtin : Prog :=
+  [⟨false, [.defer_ .direct 1 (.const 0), .deferRecover, .panic 1]⟩, ⟨false, [.recover]⟩]
+def W_forward : Prog :=
+  [⟨false, [.defer_ .direct 1 (.const 0), .defer_ .pwrap 2 (.const 0), .panic 1]⟩, ⟨false, [.recover]⟩, ⟨false, [.recover]⟩]
+def W_goexit : Prog :=
+  [⟨false, [.call .direct 1, .recover]⟩, ⟨false, [.defer_ .direct 2 (.const 1), .goexit]⟩, ⟨false, [.recover]⟩]
+
+theorem repaired_witnesses_agree :
+    emu 40 W_replaced = ref 40 W_replaced ∧ emu 40 W_builtin = ref 40 W_builtin ∧
+    emu 40 W_forward = ref 40 W_forward ∧ emu 40 W_goexit = ref 40 W_goexit := by
+  refine ⟨?_, ?_, ?_, ?_⟩ <;> decide +kernel
+
+/-! ## the proved fragment of `defer_refines`: single-frame goroutine functions -/
+
+def isLeafStmt : Stmt → Bool
+  | .call .. => false
+  | .defer_ .. => false
+  | .deferRecover => false
+  | _ => true
+
+/-- what the two interpreters must agree on after running (a prefix of) a leaf body -/
+def LeafRel (fr : EFrame) (e : JS × Comp) (r : RBodyRes) (exit0 : Bool) : Prop :=
+  e.1.trace = r.st.trace ∧ r.fr.defers = [] ∧
+  (match e.2, r.comp with
+   | .normal, .normal => e.1.cell fr.cell = r.fr.res ∧ e.1.cell fr.outer = r.outer ∧ e.1.exit = exit0
+   | .ret v, .normal => v = r.fr.res ∧ e.1.cell fr.cell = r.fr.res ∧ e.1.cell fr.outer = r.outer ∧ e.1.exit = exit0
+   | .throw (.goErr v), .panicking => r.st.panics = [.panic v false] ∧ e.1.exit = exit0
+   | .throw (.jsErr v), .panicking => r.st.panics = [.panic v false] ∧ e.1.exit = exit0
+   | .throw .null, .exiting => e.1.exit = true
+   | _, _ => False)
+
+theorem ePanic_top (P : Prog) (k : Nat) (v : Val) (d : Nat) (s : JS)
+    (h1 : s.psd = none) (h2 : s.deferStack = []) (h3 : s.panicStack = []) :
+    ePanic (k + 3) P v d s = (s, .throw (.goErr v)) := by
+  obtain ⟨lists, ds, ps, psd, pv, off, exit, cells, trace⟩ := s
+  simp only at h1 h2 h3
+  subst h1 h2 h3
+  simp [ePanic, eCallDeferred, eLoop, getStackDepth]
+
+theorem leaf_sim (P : Prog) : ∀ (stmts : List Stmt), stmts.all isLeafStmt = true →
+    ∀ (n m : Nat), stmts.length + 3 < n → stmts.length < m →
+    ∀ (fr : EFrame) (s : JS) (byPanic : Bool) (outer : Val) (rfr : RFrame) (st : RState),
+    s.psd = none → s.deferStack = [] → s.panicStack = [] → st.panics = [] →
+    fr.cell ≠ fr.outer → fr.cell < s.cells.length → fr.outer < s.cells.length →
+    s.cell fr.cell = rfr.res → s.cell fr.outer = outer → s.trace = st.trace → rfr.defers = [] →
+    LeafRel fr (eBody n P stmts fr s) (rBody m P stmts byPanic outer rfr st) s.exit := by
+  intro stmts
+  induction stmts with
+  | nil =>
+    intro _ n m hn hm fr s byPanic outer rfr st h1 h2 h3 h4 h5 h6 h7 h8 h9 h10 h11
+    obtain ⟨n, rfl⟩ : ∃ k, n = k + 1 := ⟨n - 1, by omega⟩
+    obtain ⟨m, rfl⟩ : ∃ k, m = k + 1 := ⟨m - 1, by omega⟩
+    simp [eBody, rBody, LeafRel, *]
+  | cons a rest ih =>
+    intro hl n m hn hm fr s byPanic outer rfr st h1 h2 h3 h4 h5 h6 h7 h8 h9 h10 h11
+    simp only [List.all_cons, Bool.and_eq_true] at hl
+    simp only [List.length_cons] at hn hm
+    obtain ⟨n, rfl⟩ : ∃ k, n = k + 1 := ⟨n - 1, by omega⟩
+    obtain ⟨m, rfl⟩ : ∃ k, m = k + 1 := ⟨m - 1, by omega⟩
+    cases a with
+    | call h g => simp [isLeafStmt] at hl
+    | defer_ h g a => simp [isLeafStmt] at hl
+    | deferRecover => simp [isLeafStmt] at hl
+    | panic v =>
+      obtain ⟨k, rfl⟩ : ∃ k, n = k + 3 := ⟨n - 3, by omega⟩
+      simp [eBody, rBody, LeafRel, ePanic_top P k v _ s h1 h2 h3, h4, h10, h11]
+    | nilDeref v => simp [eBody, rBody, LeafRel, h4, h10, h11]
+    | recover =>
+      have hr : rRecover byPanic st = (st, none) := by cases byPanic <;> simp [rRecover, h4]
+      have he : eRecover (fr.d + 1) s = (s, none) := by simp [eRecover, h1]
+      simp only [eBody, rBody, hr, he]
+      have := ih hl.2 n m (by omega) (by omega) fr (s.emit (.recov none)) byPanic outer rfr (st.emit (.recov none))
+        h1 h2 h3 h4 h5 h6 h7 h8 h9 (by simp [JS.emit, RState.emit, h10]) h11
+      simpa [JS.emit] using this
+    | ret => simp [eBody, rBody, LeafRel, h8, h9, h10, h11]
+    | setResult v =>
+      simp only [eBody, rBody]
+      have := ih hl.2 n m (by omega) (by omega) fr (s.setCell fr.cell v) byPanic outer { rfr with res := v } st
+        h1 h2 h3 h4 h5 (by simpa [JS.setCell] using h6) (by simpa [JS.setCell] using h7)
+        (cell_setCell_same s _ v h6) (by rw [cell_setCell_other s _ _ v h5]; exact h9) h10 h11
+      simpa [JS.setCell] using this
+    | setOuter v =>
+      simp only [eBody, rBody]
+      have := ih hl.2 n m (by omega) (by omega) fr (s.setCell fr.outer v) byPanic v rfr st
+        h1 h2 h3 h4 h5 (by simpa [JS.setCell] using h6) (by simpa [JS.setCell] using h7)
+        (by rw [cell_setCell_other s _ _ v (Ne.symm h5)]; exact h8) (cell_setCell_same s _ v h7) h10 h11
+      simpa [JS.setCell] using this
+    | goexit =>
+      obtain ⟨k, rfl⟩ : ∃ k, n = k + 1 := ⟨n - 1, by omega⟩
+      simp [eBody, rBody, eGoexit, LeafRel, h2, h10, h11]
+
+
+
+theorem leaf_no_defer : ∀ (b : List Stmt), b.all isLeafStmt = true → b.any Stmt.isDefer = false := by
+  intro b
+  induction b with
+  | nil => simp
+  | cons a t ih =>
+    intro h
+    simp only [List.all_cons, Bool.and_eq_true] at h
+    simp only [List.any_cons, ih h.2, Bool.or_false]
+    cases a <;> simp_all [isLeafStmt, Stmt.isDefer]
+
+theorem rDefers_nil (P : Prog) (k : Nat) (mode : RComp) (base : Nat) (fr : RFrame) (st : RState)
+    (hm : mode ≠ .oof) (hd : fr.defers = []) : rDefers (k + 1) P mode base fr st = ⟨mode, fr, st⟩ := by
+  cases mode <;> simp_all [rDefers]
+
+/-- `defer_refines` restricted to goroutine functions that are a single frame (no call, no defer statement):
+    explicit and run-time panics reach the top with their value, `recover()` outside a deferred call is nil,
+    `runtime.Goexit` ends the goroutine, results are kept — emulation = reference, for every such body. -/
+theorem defer_refines_partial (P : Prog) (hl : (P.fn 0).body.all isLeafStmt = true) (n m : Nat)
+    (hn : (P.fn 0).body.length + 4 < n) (hm : (P.fn 0).body.length + 2 < m) : emu n P = ref m P := by
+  obtain ⟨n, rfl⟩ : ∃ k, n = k + 1 := ⟨n - 1, by omega⟩
+  obtain ⟨m, rfl⟩ : ∃ k, m = k + 2 := ⟨m - 2, by omega⟩
+  have hnd : (P.fn 0).hasDefer = false := leaf_no_defer _ hl
+  have H := leaf_sim P _ hl n (m + 1) (by omega) (by omega) ⟨1, 0, 0, 2⟩
+    ({ (JS.init.emit (.run 0 0)) with cells := (JS.init.emit (.run 0 0)).cells ++ [0] }) false 0 ⟨0, []⟩
+    ((⟨[], []⟩ : RState).emit (.run 0 0)) rfl rfl rfl rfl (by decide) (by decide) (by decide) rfl rfl rfl rfl
+  simp only [emu, ref, eFn, rCall, hnd]
+  simp only [JS.init, JS.emit, RState.emit, List.length_cons, List.length_nil, Bool.not_false, if_true] at H ⊢
+  generalize eBody n P (P.fn 0).body _ _ = e at H ⊢
+  generalize rBody (m + 1) P (P.fn 0).body _ _ _ _ = r at H ⊢
+  obtain ⟨es, ec⟩ := e
+  obtain ⟨rc, ro, rfr, rst⟩ := r
+  obtain ⟨h1, h2, h3⟩ := H
+  simp only at h1 h2 h3
+  cases ec with
+  | normal =>
+    cases rc <;> simp only at h3
+    simp [rDefers_nil, h2, h1]
+  | ret v =>
+    cases rc <;> simp only at h3
+    simp [rDefers_nil, h2, h1]
+  | throw e =>
+    cases e <;> cases rc <;> simp only at h3
+    all_goals simp [rDefers_nil, h2, h1, h3, topPanicValue]
+  | oof => cases rc <;> simp only at h3
+
+
+/-- the hypothesis is satisfiable by a non-trivial body: named result set, recover, explicit panic -/
+example : (Prog.fn [⟨true, [.setResult 3, .recover, .setOuter 4, .panic 7, .goexit]⟩] 0).body.all isLeafStmt = true ∧
+    emu 20 [⟨true, [.setResult 3, .recover, .setOuter 4, .panic 7, .goexit]⟩] = ⟨[.run 0 0, .recov none], .panic 7⟩ := by
+  constructor <;> decide +kernel
+
+
+/-! NOT proved: `defer_refines` for programs in which a panic or `runtime.Goexit` crosses a frame that has pending
+    deferred calls (the simulation between `$callDeferred`'s in-place loop over all `$deferred` lists and the
+    frame-by-frame unwinding of the reference), the converse direction (emulation terminates ⇒ reference terminates),
+    and suspension inside deferred calls. These are compared only by the correspondence runs of checks/c08.py. -/
 
 end GV.Props.C08
